@@ -3,10 +3,10 @@ SPEC = dict(
     title="WAL compaction is equivalent to the original WAL",
     pkg="./db/wal", files=["db/wal/c05_verif_test.go"],
     case_preamble="",   # every literal carries its scope; bin/check parses ids printed as n%N, so N_scope must stay closed
-    rule="WAL files written by real SQLite for generated workloads (page sizes 512..65536; inserts, updates of pages already in the log, deletes, "
+    rule="3 hand-picked files, then WAL files written by real SQLite for generated workloads (page sizes 512..65536; inserts, updates of pages already in the log, deletes, "
          "table drops, VACUUM, multi-statement transactions, spilled transactions rolled back, an earlier WAL generation left behind the live frames) "
          "and files built frame by frame (random page numbers incl. 0, commit markers, growing/shrinking sizes, stale-salt tails, wrong checksums, "
-         "cuts inside the last frame, trailing garbage, damaged headers, both checksum byte orders); each in full-scan and salt-only mode and at resume "
+         "cuts inside the last frame (incl. exactly behind the frame header), trailing garbage, damaged headers, both checksum byte orders); each in full-scan and salt-only mode and at resume "
          "offsets chosen among all commit boundaries (plus some arbitrary offsets for the model tie only). A case is non-trivial when the property is "
          "claimed for it (header valid, offset at a boundary, salt-only mode only on checksum-clean files) and the valid prefix has >= 2 transactions, "
          ">= 1 page written twice, and a database size change or an invalid tail; distinct by (WAL bytes, offset, mode)",
